@@ -14,7 +14,8 @@ def as_bv(v, w):
     if w == 0:
         return None
     if is_sym(v):
-        return z3.Extract(w - 1, 0, term_of(v, w + 1))
+        from .pysym.values import _w
+        return z3.Extract(w - 1, 0, term_of(v, max(w + 1, _w(v))))
     return z3.BitVecVal(int(v) & ((1 << w) - 1), w)
 
 
@@ -35,9 +36,22 @@ class TransitionSystem:
         self._extract(observe, inputs, concrete, full_cycle, reset_values or {})
 
     def _key_name(self, key):
+        """Unique, deterministic variable name per state element (several signals may share a name)."""
+        k = (id(key[0]), key[1]) if isinstance(key, tuple) else id(key)
+        if k in self.names:
+            return self.names[k]
         if isinstance(key, tuple):
-            return f"m{id(key[0]) % 10000}_row{key[1]}"
-        return f"x_{key.name}"
+            mems = sorted({kk[0] for kk in self.names if isinstance(kk, tuple)} | {id(key[0])})
+            base = f"m{len([1 for kk in self.names if isinstance(kk, tuple) and kk[1] == 0 and kk[0] != id(key[0])])}_row{key[1]}"
+        else:
+            base = f"x_{key.name}"
+        name, n = base, 1
+        used = set(self.names.values())
+        while name in used:
+            n += 1
+            name = f"{base}__{n}"
+        self.names[k] = name
+        return name
 
     def _extract(self, observe, inputs, concrete, full_cycle, reset_values):
         sim = self.sim
@@ -85,6 +99,8 @@ class TransitionSystem:
         for key, v in vars_.items():
             name = self._key_name(key)
             w = (len(key) if not isinstance(key, tuple) else sim.mem_slot(key[0]).shape.width)
+            if w == 0:
+                continue
             self.widths[name] = w
             self.vars[name] = z3.BitVec(name, w)
             is_state = isinstance(key, tuple) or id(key) in driven
